@@ -64,6 +64,9 @@ def node_evidence(e: ast.expr, f: Func, ncls: set[str], depth: int = 0) -> str |
         for b in local_bindings(f.node, e.id):
             if isinstance(b, (ast.For, ast.AsyncFor)) and isinstance(b.iter, ast.Call):
                 nm = b.iter.func.attr if isinstance(b.iter.func, ast.Attribute) else dotted(b.iter.func)
+                if nm in ("get_child_nodes_with_field", "iter_child_fields") and isinstance(b.target, ast.Tuple) and b.target.elts \
+                        and not (isinstance(b.target.elts[0], ast.Name) and b.target.elts[0].id == e.id):
+                    continue  # (child, field, index): only the first component is a node
                 if nm in TRAVERSALS or nm in ("reversed", "list", "enumerate", "zip"):
                     return f"loop variable over {norm(b.iter)[:50]}"
             if isinstance(b, ast.Assign):
@@ -199,12 +202,14 @@ def r_inplace(ck: Checker, ncls: set[str]) -> None:
         n += 1
         f = m.func
         bad = None
-        for sub in ast.walk(m.target):
+        sub = m.target  # the container is reached through the value chain; subscript keys do not lead to it
+        while isinstance(sub, (ast.Attribute, ast.Subscript, ast.Call)):
             if isinstance(sub, ast.Attribute) and isinstance(sub.ctx, ast.Load):
                 ev = node_evidence(sub.value, f, ncls)
                 if ev and not sub.attr.startswith("__"):
                     bad = (sub, ev)
                     break
+            sub = sub.func if isinstance(sub, ast.Call) else sub.value
         if bad:
             ck.violation("R-INPLACE", f, m.node, what,
                          construct=f"{m.method} on {norm(m.target)[:60]} ({bad[1]})")
